@@ -71,8 +71,9 @@ def driver(chk, n):
             if mi + N < 2**256: m2 = b32(mi + N)
             elif mi >= N: m2 = b32(mi - N)
         elif m < 0.8: pk2, ek2 = ek, pk
-        elif m < 0.9: a2[0] ^= 1
-        else: a2[33] ^= 1
+        elif m < 0.85: a2[0] ^= 1
+        elif m < 0.9: a2[33] ^= 1
+        else: a2[rng.choice([0, 33])] = rng.choice([0, 1, 4, 6, 7, 0x0a, 0x12, 0x22, 0x42, 0x82, 0x83, 0xfe, 0xff, rng.randrange(256)])   # other tag bytes
         second.append({"e": "AdaptorVerify", "in": {"asig": a2, "pk": pk2, "msg": m2, "enckey": ek2}})
         second.append({"e": "AdaptorDecrypt", "in": {"deckey": i["deckey"], "asig": a2}})
         second.append({"e": "AdaptorDecrypt", "in": {"deckey": b32(edge_scalar(rng)), "asig": asig}})
@@ -85,15 +86,6 @@ def driver(chk, n):
         sig2 = rng.choice([flip(sig, rng.randrange(512)), sig[:32] + b32(edge_scalar(rng)), b32(edge_scalar(rng)) + sig[32:]])
         second.append({"e": "AdaptorRecover", "in": {"sig": sig2, "asig": asig, "enckey": rng.choice([ek, pk])}})
     return ev1 + chk.record(second, "std")
-
-
-def no_zero_inverse(recs):
-    """VERIFY builds abort inside secp256k1_ecdsa_adaptor_recover when the signature object has s = 0 (serialising the point at infinity
-    trips an internal VERIFY_CHECK; the production build returns 0 as specified) -- such records are replayed on non-VERIFY builds only"""
-    def s_is_zero(sig):   # an unparsable compact signature leaves the all-zero object behind
-        r, s = int.from_bytes(bytes(sig[:32]), "big"), int.from_bytes(bytes(sig[32:]), "big")
-        return s == 0 or r >= N or s >= N
-    return [r for r in recs if not (r["e"] == "AdaptorRecover" and s_is_zero(r["in"]["sig"]))]
 
 
 def run(chk):
